@@ -47,6 +47,9 @@ MUTATORS = {'append', 'update', 'setdefault', 'pop', 'clear', 'extend', 'insert'
             'popitem', 'sort', 'reverse', 'add', 'discard'}
 # scalar settings clone may copy (immutable values read through the context)
 CLONE_SCALARS = {'prec', 'dps', 'pretty', 'trap_complex', 'verbose'}
+# references to the other contexts (mp / fp / iv) that some functions compute with
+COMPANION_LINKS = ('_mp', '_fp', '_iv')
+LINKS_IN_CLONE = set()
 # modules allowed to name the global instances
 GLOBAL_INSTANCE_OWNERS = {'mpmath/__init__.py'}
 
@@ -315,6 +318,30 @@ def check_clone(run, ix):
             new = st.targets[0].id
             run.ok('X-R3', 'clone constructs a new instance: %s' % norm(st))
             continue
+        # companion-context links: new._mp = new ; for name in ('_fp', '_iv'): if hasattr(me, name): setattr(new, name, getattr(me, name))
+        if new and isinstance(st, ast.Assign) and len(st.targets) == 1 and norm(st.targets[0]) == '%s._mp' % new \
+                and norm(st.value) == new:
+            run.ok('X-R3', 'clone links the copy to itself as its mp context')
+            LINKS_IN_CLONE.add('_mp')
+            continue
+        if new and isinstance(st, ast.For) and isinstance(st.iter, (ast.Tuple, ast.List)) and \
+                all(isinstance(e, ast.Constant) and e.value in COMPANION_LINKS for e in st.iter.elts):
+            v = norm(st.target)
+            body = [norm(x) for x in st.body]
+            want = ['if hasattr(%s, %s): setattr(%s, %s, getattr(%s, %s))' % (me, v, new, v, me, v)]
+            flat = [norm(x, 200).replace('\n', ' ') for x in st.body]
+            ok = len(st.body) == 1 and isinstance(st.body[0], ast.If) and \
+                norm(st.body[0].test) == 'hasattr(%s, %s)' % (me, v) and len(st.body[0].body) == 1 and \
+                norm(st.body[0].body[0]) == 'setattr(%s, %s, getattr(%s, %s))' % (new, v, me, v)
+            if ok:
+                run.ok('X-R3', 'clone shares the companion contexts %s (by reference: they are other contexts, not state)'
+                       % [e.value for e in st.iter.elts])
+                for e in st.iter.elts:
+                    LINKS_IN_CLONE.add(e.value)
+            else:
+                run.fail(F('X-R3', CTXMP, f.qualname, st, 'the loop over link names does more than copy the '
+                           'companion-context references'))
+            continue
         if new and isinstance(st, ast.Assign) and len(st.targets) == 1 and \
                 isinstance(st.targets[0], ast.Attribute) and norm(st.targets[0].value) == new:
             src = st.value
@@ -340,6 +367,46 @@ def check_clone(run, ix):
     if new is None:
         run.fail(F('X-R3', CTXMP, f.qualname, f.node, 'clone does not construct a new instance through '
                    'the class constructor'))
+
+
+# --------------------------------------------------------------------------- X-R8
+def check_links(run, ix):
+    """X-R8.  Library functions reach companion contexts through ctx._mp / ctx._fp / ctx._iv (zetazero,
+    nzeros, primepi2, rs_zeta ...).  Every way of making a context must establish every link that is read:
+    the package initialisation for the three global contexts, and clone() for copies -- otherwise a clone
+    cannot compute what mp computes (AttributeError)."""
+    used = {}
+    for rel, m in ix.modules.items():
+        if not rel.startswith('mpmath/') or '/tests/' in rel or rel == 'mpmath/__init__.py':
+            continue
+        for f in m.funcs.values():
+            for x in _walk_own(f.node):
+                if isinstance(x, ast.Attribute) and x.attr in COMPANION_LINKS and isinstance(x.ctx, ast.Load) and \
+                        isinstance(x.value, ast.Name) and x.value.id in ('ctx', 'self'):
+                    used.setdefault(x.attr, (rel, f.qualname, x.lineno))
+    if len(used) < 2:
+        raise AnalysisError('X-R8: uses of the companion-context links not found')
+    init = ix.module('mpmath/__init__.py')
+    set_in_init = {}
+    for x in ast.walk(init.tree):
+        if isinstance(x, ast.Assign) and len(x.targets) == 1 and isinstance(x.targets[0], ast.Attribute) and \
+                x.targets[0].attr in COMPANION_LINKS and isinstance(x.targets[0].value, ast.Name):
+            set_in_init.setdefault(x.targets[0].value.id, set()).add(x.targets[0].attr)
+    for link, (rel, qn, line) in sorted(used.items()):
+        # iv is not required to have the links: the functions that read them (zeta zeros, Riemann-Siegel,
+        # primepi2) do not accept interval arguments at all (iv._mp and iv._iv exist, iv._fp does not)
+        for g in ('mp', 'fp'):
+            if link in set_in_init.get(g, ()):
+                run.ok('X-R8', '%s.%s is set by the package initialisation' % (g, link))
+            else:
+                run.fail(F('X-R8', 'mpmath/__init__.py', '<module>', '%s.%s' % (g, link),
+                           'the global context %s never gets the link %s that %s:%s reads' % (g, link, rel, qn)))
+        if link in LINKS_IN_CLONE:
+            run.ok('X-R8', 'clone() establishes %s' % link)
+        else:
+            run.fail(F('X-R8', CTXMP, 'MPContext.clone', 'link %s' % link,
+                       'a cloned context has no `%s`, which %s:%s (line %d) reads: the clone raises AttributeError '
+                       'where mp returns a value' % (link, rel, qn, line)))
 
 
 # --------------------------------------------------------------------------- X-R4
@@ -695,7 +762,10 @@ def run(run, ix, tier):
     run.rule('X-R7', floor=2)
     check_cells(run, ix)
     n2 = check_instance_state(run, ix)
+    LINKS_IN_CLONE.clear()
     check_clone(run, ix)
+    run.rule('X-R8', floor=9, desc='companion-context links established for every context')
+    check_links(run, ix)
     n4 = check_hack_globals(run, ix)
     n5 = check_global_instances(run, ix)
     n6 = check_foreign_cell(run, ix)
